@@ -56,7 +56,7 @@ def work(args):
     faulthandler.dump_traceback_later(600, exit=True)
     from . import engine
     agg = dict(stats=Counter(), status=Counter(), trans=set(), evals=0, viols=[], guard=Counter(),
-               samples=[], notes=Counter(), steps=0)
+               samples=[], notes=Counter(), steps=0, digests=[])
     for s in seeds:
         try:
             res = engine.run(focus, seed=s, profile=profile)
@@ -66,6 +66,8 @@ def work(args):
             continue
         agg['stats'].update(res.stats)
         agg['status'][res.status] += 1
+        if profile and profile.get('digests'):
+            agg['digests'].append((s, res.digest, res.status))
         agg['trans'] |= res.trans
         agg['evals'] += res.evals
         agg['steps'] += len(res.ops)
@@ -98,7 +100,7 @@ def batch(focus, vseed, tier, runs=None, jobs=None, wall=None, profile=None):
     chunk = max(20, min(500, n // (jobs * 8) or 1))
     chunks = [seeds[i:i + chunk] for i in range(0, n, chunk)]
     total = dict(stats=Counter(), status=Counter(), trans=set(), evals=0, viols=[], guard=Counter(),
-                 samples=[], notes=Counter(), steps=0, runs=0, capped=False)
+                 samples=[], notes=Counter(), steps=0, runs=0, capped=False, digests=[])
     t0 = time.time()
     ctx = multiprocessing.get_context('fork')
     with ProcessPoolExecutor(max_workers=jobs, mp_context=ctx) as ex:
@@ -131,6 +133,7 @@ def batch(focus, vseed, tier, runs=None, jobs=None, wall=None, profile=None):
         total['evals'] += agg['evals']
         total['steps'] += agg['steps']
         total['viols'].extend(agg['viols'])
+        total['digests'].extend(agg['digests'])
         if len(total['samples']) < 3:
             total['samples'].extend(agg['samples'][:1])
     total['wall'] = time.time() - t0
@@ -245,6 +248,7 @@ def main(argv=None):
     ap.add_argument('--wall', type=int)
     ap.add_argument('--seed', type=int, default=int(os.environ.get('VERIF_SEED', '20261001')))
     ap.add_argument('--no-min', action='store_true')
+    ap.add_argument('--digest', action='store_true', help='print one digest over the event logs of the batch and exit')
     a = ap.parse_args(argv)
     reexec_if_needed()
     check_import()
@@ -258,6 +262,13 @@ def main(argv=None):
         if res.status == 'violation':
             print("VIOLATION property=%s replay=%s" % (focus, os.path.abspath(a.replay)))
             return 1
+        return 0
+    if a.digest:
+        import hashlib
+        total = batch(focus, a.seed, a.tier, a.runs or 300, a.jobs, a.wall, profile={'digests': True})
+        h = hashlib.sha256(json.dumps(total['digests']).encode()).hexdigest()
+        print("DIGEST %s runs=%d hashseed=%s jobs=%s %s status=%s" % (focus, total['runs'], os.environ.get('PYTHONHASHSEED'),
+                                                                     a.jobs, h, dict(total['status'])))
         return 0
     t0 = time.time()
     known = findings.report_known(focus)
